@@ -33,6 +33,7 @@ type graph struct {
 	StoredInputs bool   // non-Input types also come with stored /inputs
 	Flag         string // "", "outputs-for", "no-outputs-for", "inputs-for", "no-inputs-for"
 	FlagType     int
+	FlagForm     int // how the flag's list names the type: see flagList
 	WithOutput   bool
 	Reversed     bool // model types listed in /META/models in reverse palette order (types without stored inputs first)
 }
@@ -54,7 +55,7 @@ func (g *graph) String() string {
 	for _, l := range g.Links {
 		ls = append(ls, fmt.Sprintf("%s(g%d,%d).out%d->%s(g%d,%d).in%d", Palette[l.Src.Typ], l.Src.Gen, l.Src.K, l.SrcVar, Palette[l.Dst.Typ], l.Dst.Gen, l.Dst.K, l.DstVar))
 	}
-	return fmt.Sprintf("G=%d T=%d %s links{%s} stored=%v flag=%s:%s output=%v reversed-names=%v", g.G, g.T, strings.Join(parts, " "), strings.Join(ls, " "), g.StoredInputs, g.Flag, Palette[g.FlagType], g.WithOutput, g.Reversed)
+	return fmt.Sprintf("G=%d T=%d %s links{%s} stored=%v flag=%s:%s output=%v reversed-names=%v", g.G, g.T, strings.Join(parts, " "), strings.Join(ls, " "), g.StoredInputs, g.Flag, g.flagList(), g.WithOutput, g.Reversed)
 }
 
 func (g *graph) batches(t int) []int32 {
@@ -172,12 +173,38 @@ type expected struct {
 	shapes                  map[string][]int
 }
 
-func writeFor(model, flag, flagModel string, kind string, def bool) bool {
-	// mirrors the command line semantics: include list wins, then exclude list, then the default
-	if flag == kind+"-for" && flagModel == model {
+// flagList is the text given to the selection flag: the type's exact name, alone or in a list, or names that merely
+// resemble it (an extension, a proper prefix, a suffix match), which select nothing.
+func (g *graph) flagList() string {
+	m := Palette[g.FlagType]
+	other := Palette[(g.FlagType+1)%len(Palette)]
+	switch g.FlagForm {
+	case 1:
+		return m + "Alt"
+	case 2:
+		return m[:len(m)-1]
+	case 3:
+		return "X" + m
+	case 4:
+		return other + "," + m
+	case 5:
+		return m + "Alt," + other
+	}
+	return m
+}
+
+func writeFor(model, flag, list string, kind string, def bool) bool {
+	// the command line semantics: a comma-separated list of exact model names; include list wins, then exclude list, then the default
+	named := false
+	for _, n := range strings.Split(list, ",") {
+		if n == model {
+			named = true
+		}
+	}
+	if flag == kind+"-for" && named {
 		return true
 	}
-	if flag == "no-"+kind+"-for" && flagModel == model {
+	if flag == "no-"+kind+"-for" && named {
 		return false
 	}
 	return def
@@ -219,7 +246,7 @@ func (g *graph) reference() map[string]hdf5.FakeEntry {
 			}
 		}
 	}
-	flagModel := Palette[g.FlagType]
+	flagModel := g.flagList()
 	for t, name := range Palette {
 		tot := g.total(t)
 		if tot == 0 {
